@@ -1,6 +1,7 @@
 import Knut.Proofs.MTMDiff
 import Knut.Proofs.MTMMapped
 import Knut.Proofs.MTMShow
+import Knut.Driver.Balance
 import Knut.Properties.C03Report
 import Knut.Properties.C03Command
 /-!
@@ -194,12 +195,20 @@ structure MappedFlags (f : BalanceFlags) (v : Commodity) : Prop where
 def rowSel (f : BalanceFlags) (r a : Account) : Bool :=
   f.accountFilter a.name && decide (shorten f.mapping (if f.remap a.name then swapType a else a) = some r)
 
+/-- the driver (op `c03rows`, the monitor's side) selects the accounts of a row and the eve of a column by these very definitions -/
+theorem rowSel_eq_driver : rowSel = Knut.Driver.Balance.c03RowSel := rfl
+
 theorem srcSel_cfgOf (f : BalanceFlags) (part : Partition) (r : Account) : srcSel (cfgOf f part) r = rowSel f r := rfl
 
 /-- the eve of column `k` of the report: the previous period end in a `--diff` report (the day before the window start
 for the first column), the day before the window start in a cumulative report -/
 def cellEve (f : BalanceFlags) (part : Partition) (k : Nat) : Int :=
   if f.diff then colEve part k else part.span.start - 1
+
+theorem cellEve_eq_driver (f : BalanceFlags) (part : Partition) (k : Nat) :
+    cellEve f part k = Knut.Driver.Balance.c03Eve f part k := by
+  unfold cellEve colEve Knut.Driver.Balance.c03Eve
+  cases f.diff <;> cases k <;> rfl
 
 theorem sourceAccounts_daysOf (f : BalanceFlags) (ds : List Directive) (part : Partition) (sel : Account → Bool) :
     Spec.sourceAccounts sel (daysOf f ds part) = Spec.sourceAccounts sel (Builder.ofList ds).build := by
